@@ -60,6 +60,7 @@ type vfDiscOp struct {
 	// observations
 	Req   *vfDiscReq   `json:"req,omitempty"`
 	State *vfDiscState `json:"state,omitempty"`
+	Stuck bool         `json:"stuck,omitempty"` // refresh: the tick had not returned when the harness stopped waiting
 }
 
 type vfDiscCase struct {
@@ -662,9 +663,24 @@ func vfDiscRunCase(p *vfDiscProvider, cs *vfDiscCase) {
 			case "shift":
 				vfDiscShiftExpiry(ru.t, time.Duration(op.Min)*time.Minute)
 			case "refresh":
-				vfDiscRefreshTick(ru.t, url)
+				// synchronous in the code (the body of the hourly loop): bounded here, a tick that does not come back within
+				// the time a whole discovery run may take is recorded and the history goes on without it
+				doneCh := make(chan struct{})
+				go func() { vfDiscRefreshTick(ru.t, url); close(doneCh) }()
+				select {
+				case <-doneCh:
+				case <-time.After(vfDiscAllowance(vfDiscBudget, T)):
+					op.Stuck = true
+				}
+				if op.Stuck { // the tick still holds the metadata cache: nothing more can be observed on this instance
+					cs.Note = fmt.Sprintf("the refresh tick (operation %d) had not returned after %s; the remaining operations were not run", i, vfDiscAllowance(vfDiscBudget, T))
+					cs.Ops = cs.Ops[:i]
+				}
 			case "cleanup":
 				vfDiscCleanupTick(ru.t)
+			}
+			if i >= len(cs.Ops) {
+				break
 			}
 			op.State = ru.state()
 		}
